@@ -179,6 +179,34 @@ func driveNonce(c *ctx) {
 		e2[i] ^= 1 << uint(rng.Intn(8))
 		signWith(keys[2], digests[2], e2, whole)
 	}
+	// RELATED (key, entropy) pairs (round 10): the three inputs enter the nonce as a tuple, not through one another - pairs with the same
+	// d xor entropy, the same d + entropy, d - entropy (mod 2^256), entropy = d, entropy = digest, and key / entropy swapped must not share
+	// r on one digest (a derivation that masks the key with the entropy makes the first family collide)
+	{
+		d1 := keys[2]
+		e1 := new(big.Int).SetBytes(entropies[3])
+		mask := pow2(256)
+		for t := 0; t < 4; t++ {
+			d2 := add(randBig(rng, add(bigN, -1)), 1)
+			if t == 0 {
+				d2 = add(d1, 1)
+			}
+			xorE := new(big.Int).Xor(new(big.Int).Xor(d1, e1), d2)                            // d1 ^ e1 == d2 ^ xorE
+			addE := new(big.Int).Mod(new(big.Int).Sub(new(big.Int).Add(d1, e1), d2), mask)   // d1 + e1 == d2 + addE
+			subE := new(big.Int).Mod(new(big.Int).Sub(d2, new(big.Int).Sub(d1, e1)), mask)   // d1 - e1 == d2 - subE
+			for _, dg := range digests[2:4] {
+				signWith(d1, dg, be32(e1)[:], whole)
+				for _, e2 := range []*big.Int{xorE, addE, subE} {
+					signWith(d2, dg, be32(e2)[:], whole)
+				}
+				signWith(d2, dg, be32(d2)[:], whole) // entropy equal to the key
+				signWith(d2, dg, dg[:32], whole)     // entropy equal to the digest
+				if e1.Sign() > 0 && e1.Cmp(bigN) < 0 {
+					signWith(e1, dg, be32(d1)[:], whole) // key and entropy swapped
+				}
+			}
+		}
+	}
 	// bytes after the first 32 never matter; digest bytes after the first 32 never matter
 	signWith(keys[2], append(append([]byte{}, digests[2]...), 1, 2, 3), entropies[3], whole)
 	// failing readers: error after j bytes for every j in 0..31 (no signature), in one or several chunks
@@ -406,6 +434,8 @@ func driveNonce(c *ctx) {
 		}
 		drbg(x, e, 1+i%6, false)
 	}
+	// one LONG run of one generator instance (round 10): a read counter narrower than int wraps after 2^8 reads
+	drbg(add(randBig(rng, add(bigN, -1)), 1), randBig(rng, bigN), c.scale(520, 2100), false)
 	// the repository's RFC 6979 vector file re-driven: (key 1, message) pairs
 	if f, err := os.Open(filepath.Join(c.repo, "secec", "testdata", "secp256k1_rfc6979_sha256.csv")); err == nil {
 		sc := bufio.NewScanner(f)
